@@ -130,6 +130,8 @@ structure Obs where
   byName : List (Option Nat)              -- per probe: index i with `fields(C).<probe> is fields(C)[i]`
   dictKeys : List String                  -- list(fields_dict(C))
   dictAgree : Bool                        -- fields_dict(C)[n] is fields(C).<n> for every key
+  histAgree : Bool                        -- after any history of introspection: has(cls) ⇔ fields(cls) works, for
+                                          -- every class touched, and asdict recurses into instances of C
   has : List Bool                         -- attr.has(cls) per class of the hierarchy
   matchArgs : List String                 -- C.__match_args__
   initParams : List (String × Bool)       -- inspect.signature(C.__init__): (name, keyword-only)
@@ -468,7 +470,7 @@ def twinFields (c : Case) (fe : Frontend) : Option (List FieldObs) :=
 
 def emptyObs : Obs :=
   { err := none, fields := [], received := none, returned := none, byIndex := [], byName := [],
-    dictKeys := [], dictAgree := true, has := [], matchArgs := [], initParams := [], twins := [],
+    dictKeys := [], dictAgree := true, histAgree := true, has := [], matchArgs := [], initParams := [], twins := [],
     setattrKinds := [], metaWriteKinds := [], afterMutation := [] }
 
 /-- observation when the class under test was created -/
@@ -481,6 +483,7 @@ def okObs (c : Case) (tbl : Table) (last : Cls) (b : Built) : Obs :=
     byName := c.probes.map (tupleProp (b.attrs.map (·.name)))
     dictKeys := dictKeys (b.attrs.map (·.name)) []
     dictAgree := true
+    histAgree := true
     has := (List.range c.classes.length).map (hasOf (mroOf c.classes) (tbl ++ [tableEntry last b]))
     matchArgs := matchArgsOf b.attrs
     initParams := initParamsOf b.attrs
